@@ -73,6 +73,19 @@ def _validation(prog, f, S, anchor, dom):
             r = cfg.reachable(f, nb, avoid={anchor})
             if r & errs:
                 return "column_names() in bb%d, %s in bb%d with an error edge" % (c, cname(prog, ht).rsplit("::", 1)[-1], hb)
+    # same test written as a search over the names: column_names().into_iter().find(|n| !table.has_column(n)) / any / all / position, error on the result
+    from ..lib import lifted_closures
+    for L in lifted_closures(prog, f, S):
+        if L.call_block is None or not calls(prog, L.fn, r"^msi::internal::table::Table::(has_column|index_for_column_name)$"):
+            continue
+        nme = cname(prog, f.blocks[L.call_block]["term"])
+        if not re.search(r"Iterator::(find|any|all|position|find_map|try_for_each)$", nme):
+            continue
+        for c in cn:
+            if L.call_block in cfg.reachable(f, c) and anchor in cfg.reachable(f, L.call_block) and "column_names" in (L.param or "") + S.val(f.blocks[L.call_block]["term"]["args"][0]):
+                r = cfg.reachable(f, f.blocks[L.call_block]["term"]["succ"][0], avoid={anchor})
+                if r & errs:
+                    return "column_names() in bb%d searched with %s over has_column, error edge on the result" % (c, nme.rsplit("::", 1)[-1])
     return None
 
 
@@ -123,29 +136,69 @@ def join_sib(ctx, rule="JOIN-SIB"):
                    "table's for right columns); only the left join applies but_nullable, and only to the right side; the left join pads "
                    "unmatched rows with one Null per right column")
     f = prog.fn("msi::internal::query::Join::exec")
+    S = Sym(prog, f)
+    vs = {v["idx"]: v["name"] for v in prog.adts["msi::internal::query::Join"]["variants"]}
+
+    def arm_at(blk):
+        a = [val for (e, op, val, gg) in S.facts_at(blk) if e.startswith("discr(p1") and op == "=="]
+        return vs.get(a[-1]) if a else None
+    # closure creation sites, per arm, with the creator-side values of the captures (a helper shared by both arms is inlined twice: two sites, one closure body)
+    sites = []
+    for bl in f.blocks:
+        if bl["cleanup"]:
+            continue
+        for st in bl["stmts"]:
+            r = st["rhs"]
+            if r["rv"] == "agg" and r.get("cid") in prog.fns:
+                sites.append((bl["id"], prog.fns[r["cid"]], [S.val(o) for o in r["ops"]]))
+
+    def applied(c, caps, callee_rx):
+        """calls of callee in closure c that execute for this creation site: [True/False/None(undecided)]"""
+        SC = Sym(prog, c)
+        out = []
+        for b, t in calls(prog, c, callee_rx):
+            verdict = True
+            for (e, tr, g) in SC.bool_facts_at(b):
+                m = re.fullmatch(r"[&*]*p1\.(\d+)", e)
+                if not m or not isinstance(tr, bool):
+                    continue
+                k = int(m.group(1))
+                v = caps[k].lstrip("&*") if k < len(caps) else "?"
+                if v in ("c:0", "c:1"):
+                    if (v == "c:1") != tr:
+                        verdict = False
+                else:
+                    verdict = None if verdict is not False else False
+            out.append(verdict)
+        return out
+    per_arm = {"Inner": {"wn": 0, "bn": [], "und": 0}, "Left": {"wn": 0, "bn": [], "und": 0}}
     wn = []
-    bn = []
-    for g in prog.unit(f):
-        for b, t in calls(prog, g, r"^msi::internal::column::Column::with_name_prefix$"):
-            wn.append((g, b, t))
-        for b, t in calls(prog, g, r"^msi::internal::column::Column::but_nullable$"):
-            bn.append((g, b, t))
-    ctx.check(len(wn) == 4, rule, "with_name_prefix call sites", "4 (2 per join kind)", "found %d with_name_prefix calls in Join::exec, expected 4" % len(wn), f.loc(), fn=f.name)
-    ctx.check(len(bn) == 1, rule, "but_nullable call sites", "1 (left join, right side)", "found %d but_nullable calls in Join::exec, expected exactly 1" % len(bn), f.loc(), fn=f.name)
-    if len(bn) == 1:
-        g, b, t = bn[0]
-        # the closure that calls but_nullable must also call with_name_prefix and be created in the Left arm, as the second (chained) mapper
-        owner, anchor = _anchor_in_owner(prog, g, b)
-        S = Sym(prog, f)
-        arm = [val for (e, op, val, gg) in S.facts_at(anchor) if e.startswith("discr(p1")] if owner is f else []
-        vs = {v["idx"]: v["name"] for v in prog.adts["msi::internal::query::Join"]["variants"]}
-        name = vs.get(arm[-1]) if arm else None
-        ctx.check(name == "Left", rule, "but_nullable only in the Left arm", str(name),
-                  "but_nullable is applied in the %s arm" % name, g.loc(t["sp"]), fn=f.name)
-        # right side: the closure is the argument of the `chain`ed map, i.e. iterates table2's columns: its prefix comes from the second exec result
-        SG = Sym(prog, g)
-        pref = [SG.val(tt["args"][1]) for bb, tt in calls(prog, g, r"with_name_prefix$")]
-        ctx.check(len(pref) == 1, rule, "but_nullable closure prefixes once", str(pref), "closure applies %d prefixes" % len(pref), g.loc(), fn=f.name)
+    for (blk, c, caps) in sites:
+        arm = arm_at(blk)
+        if arm not in per_arm:
+            continue
+        w = applied(c, caps, r"^msi::internal::column::Column::with_name_prefix$")
+        bnn = applied(c, caps, r"^msi::internal::column::Column::but_nullable$")
+        if w:
+            per_arm[arm]["wn"] += 1
+            wn.append((c, blk))
+        per_arm[arm]["bn"] += [x for x in bnn if x is True]
+        per_arm[arm]["und"] += len([x for x in bnn if x is None])
+        if any(x is True for x in bnn):
+            ctx.check(bool(w), rule, "but_nullable closure also prefixes", "", "the closure that makes columns nullable does not prefix their names", c.loc(), fn=f.name)
+    # direct (non-closure) calls in the function body count for the arm they sit in
+    for b, t in calls(prog, f, r"^msi::internal::column::Column::with_name_prefix$"):
+        if arm_at(b) in per_arm:
+            per_arm[arm_at(b)]["wn"] += 1
+    for b, t in calls(prog, f, r"^msi::internal::column::Column::but_nullable$"):
+        if arm_at(b) in per_arm:
+            per_arm[arm_at(b)]["bn"].append(True)
+    for arm in ("Inner", "Left"):
+        ctx.check(per_arm[arm]["wn"] == 2, rule, "%s: both sides prefixed" % arm, "2 prefixing mappers", "the %s join builds its columns with %d prefixing mappers, expected 2 (left and right)" % (
+            arm, per_arm[arm]["wn"]), f.loc(), fn=f.name, key="%s|%s|prefix" % (rule, arm))
+    ctx.check(len(per_arm["Inner"]["bn"]) == 0 and per_arm["Inner"]["und"] == 0, rule, "inner join keeps nullability", "", "but_nullable is applied in the Inner arm", f.loc(), fn=f.name, key=rule + "|inner-nullable")
+    ctx.check(len(per_arm["Left"]["bn"]) == 1 and per_arm["Left"]["und"] == 0, rule, "left join makes the right side nullable", "", "the Left arm applies but_nullable %d time(s), expected exactly once (right side)" % len(per_arm["Left"]["bn"]),
+              f.loc(), fn=f.name, key=rule + "|left-nullable")
     # Null padding: ValueRef::Null aggregate inside a closure mapped over table2.columns() in the Left arm
     pad = []
     for g in f.closures:
@@ -156,10 +209,8 @@ def join_sib(ctx, rule="JOIN-SIB"):
                     pad.append(g)
     ctx.check(len(pad) == 1, rule, "left join pads with ValueRef::Null per right column", "", "found %d Null-padding closures in Join::exec, expected 1" % len(pad), f.loc(), fn=f.name)
     # prefix pairing: in each arm, the two prefixes are table1.name() for table1.columns() and table2.name() for table2.columns()
-    S = Sym(prog, f)
-    for g, b, t in wn:
-        SG = Sym(prog, g)
-        ctx.ok(rule, "prefix in %s" % g.path.rsplit("::", 1)[-1], SG.val(t["args"][1]), g.loc(t["sp"]))
+    for g, blk in wn:
+        ctx.ok(rule, "prefixing mapper %s built in bb%d" % (g.path.rsplit("::", 1)[-1], blk), "", g.loc())
 
 
 def join_shape(ctx, rule="JOIN-SHAPE"):
@@ -340,7 +391,7 @@ def join_more(ctx, rule="JOIN-SHAPE"):
     fm = [c for c in hs if c[1].endswith("fmt::format")]
     nd = [c[2][0] for c in hs if c[1].endswith("new_display")]
     ok = len(cl) == 1 and len(fm) == 1 and has_fact(Sh, cl[0][0], r"^core::str::<impl str>::is_empty\(&\*p2\)$", True) and has_fact(Sh, fm[0][0], r"^core::str::<impl str>::is_empty\(&\*p2\)$", False) \
-        and len(Sh.bool_facts_at(cl[0][0])) == 1 and nd == ["&*tuple{&p2,&*p1.name}.0", "&*tuple{&p2,&*p1.name}.1"]
+        and len(Sh.bool_facts_at(cl[0][0])) == 1 and nd == ["&p2", "&*p1.name"]
     piece = [c[2][0] for c in hs if c[1].endswith("Arguments::<'a>::new")]
     ok = ok and len(piece) == 1 and "\\xc0\\x01.\\xc0\\x00" in piece[0]
     ctx.check(ok, R3, "prefix applied iff non-empty, as prefix.name", "", "with_name_prefix does not return self.clone() exactly for an empty prefix and \"{prefix}.{name}\" otherwise", h.loc(), fn=h.name, key=R3)
